@@ -194,14 +194,23 @@ func (c *rrComp) Gen(rng *rand.Rand, idx int, tier string, targeted bool) hlib.H
 	// weight palette of this history
 	palettes := [][]int64{
 		{1}, {1, 1, 2}, {0, 1, 2, 3}, {3, 2, 0}, {4, 6, 10}, {2, 4, 8}, {6, 9, 15, 0}, {1, 2, 3, 4, 5}, {5, 5, 5}, {0}, {0, 0, 7}, {12, 18}, {1, 4096}, {7, 1},
+		{8192, 4096, 0}, {2500, 5000, 2500}, {10000, 5000}, {4097, 8194}, // heavier than the rebalancer's cap of 4096, short rotations
 	}
 	pal := palettes[rng.Intn(len(palettes))]
 	if targeted && rng.Intn(3) == 0 {
 		pal = [][]int64{{0}, {0, 0, 1}, {1, 4096}, {4, 6, 10}, {3, 2, 0}}[rng.Intn(5)]
 	}
-	big := false
+	big := false // a long rotation: any weight above 100 that is not a small multiple of the palette's gcd
+	pg := int64(0)
 	for _, w := range pal {
-		if w > 100 {
+		a, b := pg, w
+		for b != 0 {
+			a, b = b, a%b
+		}
+		pg = a
+	}
+	for _, w := range pal {
+		if w > 100 && (pg == 0 || w/pg > 100) {
 			big = true
 		}
 	}
